@@ -44,6 +44,33 @@ def layout_mutants(rng, s):
     return out
 
 
+def clean_struct_pairs(rng, count):
+    """fully laid-out structs (size, alignment and every offset known, hence compatible with themselves) against every
+    single-fact near miss, in BOTH argument orders: an unknown offset on one side only, a shifted offset, a changed
+    size / alignment, a field more or less"""
+    out = []
+    prims = [(2, 1), (4, 2), (6, 4), (8, 8), (12, 1)]          # (primitive tag, size)
+    for _ in range(count):
+        fields, off = [], 0
+        for i in range(rng.randint(1, 4)):
+            tag, sz = rng.choice(prims)
+            off = (off + sz - 1) // sz * sz
+            fields.append((b"f%d" % i, ('Pr', tag, None), off))
+            off += sz
+        size = (off + 7) // 8 * 8
+        s = ('St', b"S", size, 8, fields)
+        out.append((s, s))
+        for i, (n, v, o) in enumerate(fields):
+            for t in (('St', b"S", size, 8, fields[:i] + [(n, v, None)] + fields[i + 1:]),
+                      ('St', b"S", size, 8, fields[:i] + [(n, v, o + 1)] + fields[i + 1:]),
+                      ('St', b"S", size, 8, fields[:i] + [(n, ('Pr', 3 if v[1] != 3 else 5, None), o)] + fields[i + 1:])):
+                out += [(s, t), (t, s)]
+        for t in (('St', b"S", size + 8, 8, fields), ('St', b"S", size, 4, fields), ('St', b"S", None, 8, fields), ('St', b"S", size, None, fields),
+                  ('St', b"S", size, 8, fields[:-1]), ('St', b"S", size, 8, fields + [(b"x", ('Pr', 2, None), size - 1)])):
+            out += [(s, t), (t, s)]
+    return out
+
+
 def run(chk, tier, seed):
     if THEOREMS:
         chk.obligations(THEOREMS, "C11")
@@ -66,6 +93,10 @@ def run(chk, tier, seed):
             k += 1
             lines.append("y%d schema_layout %s %s" % (k, " ".join(G.tokens(s)), " ".join(G.tokens(t))))
             meta[k] = (s, t)
+    for (s, t) in clean_struct_pairs(rng, 12 if tier == "quick" else 80):
+        k += 1
+        lines.append("y%d schema_layout %s %s" % (k, " ".join(G.tokens(s)), " ".join(G.tokens(t))))
+        meta[k] = (s, t)
     # real schemas of the universe: every root against itself and against its siblings
     roots = D.roots_for(U, exclude=("k13bulk", "arrayvec"))
     sl = ["s%d ty_schema %d %d" % (i, i, r.get("curver", 0)) for i, r in roots]
